@@ -78,3 +78,9 @@ func (manager *Manager) VerifRetryPass() {
 		return true
 	})
 }
+
+// VerifForget drops a registry entry without touching the element (harness clean-up after an
+// observed panic, so that later cases start from a sane process state).
+func (manager *Manager) VerifForget(address string) {
+	manager.convs.Delete(address)
+}
